@@ -848,6 +848,10 @@ pub fn run_parent(info: &CheckInfo, tier: Tier, extra_cov: Option<Value>) -> i32
         known_hits.values().sum::<u64>(),
         wall
     );
+    if !new_violations.is_empty() {
+        // a violation is a verdict even when crashes cut the exploration short
+        return 1;
+    }
     if st.cases == 0 {
         eprintln!("MACHINERY FAILURE ({prop}): vacuous run, no case executed");
         return 2;
